@@ -497,7 +497,7 @@ def decide(pid, tier, seed, replay=None):
             path = write_replay(pid, tier, seed, 98, {"kind": "coqchk", "spec": "", "broken": "coqchk rejects Props/%s.vo" % pid, "log": tail})
             print("VIOLATION property=%s replay=%s no-failing-input-found" % (pid, path)); rc = 1
             ev["violations"] += 1
-    if not replay:
+    if not replay and not os.environ.get("VERIF_NO_EVIDENCE"):      # seeded-change runs (driver/seedtest.py) must not overwrite the evidence of the unchanged tree
         write_evidence(pid, ev)
     print("%s %s: %d theorems (%d discharged), %d cases evaluated on the implementation (%d non-trivial), %d violation(s), %.1fs" % (
         pid, tier, obligations + gen_obl, discharged + gen_dis, evaluations, nontrivial, len(violations), time.time() - t0))
